@@ -145,6 +145,25 @@ fn ge_machine(toks: &[&str]) -> R {
                 let a = pop!();
                 st.push((&a - &b.to_cached()).to_full())
             }
+            // the public mixed-addition impls with the only publicly constructible GePrecomp (the identity)
+            "addpz" => {
+                let a = pop!();
+                st.push((&a + &cryptoxide::curve25519::GePrecomp::ZERO).to_full())
+            }
+            "subpz" => {
+                let a = pop!();
+                st.push((&a - &cryptoxide::curve25519::GePrecomp::ZERO).to_full())
+            }
+            "subpzv" => {
+                let a = pop!();
+                st.push((a - cryptoxide::curve25519::GePrecomp::ZERO).to_full())
+            }
+            // by-value Sub<GeCached> for Ge
+            "subv" => {
+                let b = pop!();
+                let a = pop!();
+                st.push((a - b.to_cached()).to_full())
+            }
             "dup" => {
                 let a = top!().clone();
                 st.push(a)
